@@ -65,6 +65,25 @@ def global_commit_rules(ctx, P='C17-ABORT'):
         # (failures of the bookkeeping statements inside the handler itself are not modelled)
         if not loops or any(t.id in g.reach(es, avoid=loops, edge_ok=lambda x, y, lab: lab not in ('exc', 'unmatched') or x == s.id or g.nodes[x].kind == 'dispatch') for t in tr): ok = False
     ctx.ob(P + '.global-commit-rolls-back-others', cm, pcm[0].ast if pcm else cm.node, ok, '' if ok else 'commit(): other caches are not rolled back when the primary commit fails')
+    # ... and of *every* other cache: in the module-level commit() and rollback() each iteration of a loop over the session's caches passes the call
+    # that ends that cache's session (`cache.rollback()` / `cache.commit()` / `cache.release()`) -- no `continue` for caches that "have nothing to
+    # undo": a cache that is skipped keeps its connection and stays registered as the thread's current session of that database
+    nloop = 0
+    for qual in ('commit', 'rollback'):
+        fq = repo.fn(CORE, qual); gq = cg.cfg(fq)
+        for L in [x for x in gq.nodes if x.kind == 'iter' and isinstance(x.ast.target, ast.Name)]:
+            var = L.ast.target.id
+            ends = [x for x in gq.nodes if x.ast is not None and x.kind in ('stmt', 'test') and any(is_call_to(c, var, m_) for c in x.calls() for m_ in ('rollback', 'commit', 'release', 'close'))
+                    and any(x.ast is y or x.stmt is y for b in L.ast.body for y in ast.walk(b))]
+            if not ends: continue
+            nloop += 1
+            starts = [y for y, lab in gq.succ[L.id] if lab == 'loop']
+            r_ = gq.reach(starts, avoid=ends, edge_ok=lambda x, y, lab: lab != 'exc')
+            okl = L.id not in r_
+            ctx.ob(P + '.every-cache-of-the-session-is-ended', fq, L.ast, okl,
+                   '' if okl else '%s(): an iteration over the caches can skip `%s.%s()`: that database\'s session is neither rolled back nor released -- its connection is kept and the '
+                   'next session of the thread finds the dead cache still registered' % (qual, var, norm(ends[0].ast)[:30]), node=L.ast)
+    ctx.floor(P, nloop, 2, 'loops over the caches of a session that end them')
     # every cache is flushed before ANY database is committed: a flush error (constraint, cycle, hook) in one database must
     # surface while nothing is committed yet
     loops = [x for x in g.nodes if x.kind == 'iter' and norm(x.ast.iter) == 'caches' and any(f_.id in g.reach([x]) for f_ in fl)]
@@ -249,6 +268,7 @@ def run(ctx):
 
 
 MUTANTS = [
+    dict(id='C17-skip1', file='pony/orm/core.py', fn='commit', old="        for cache in other_caches:\n            try: cache.rollback()", new="        for cache in other_caches:\n            if not cache.in_transaction: continue\n            try: cache.rollback()", expect='C17-ABORT.every-cache'),
     dict(id='C17-rec1', file='pony/orm/core.py', fn='SessionCache.reconnect', old="            in_transaction = cache.in_transaction\n            cache.connection = None\n            provider.drop(connection, cache)  # resets cache.in_transaction\n            if in_transaction: throw(",
          new="            cache.connection = None\n            provider.drop(connection, cache)  # resets cache.in_transaction\n            in_transaction = cache.in_transaction\n            if in_transaction: throw(", expect='C17-RECONNECT'),
     dict(id='C17-g1', file='pony/orm/core.py', fn='commit', old="        for cache in caches:\n            cache.flush()\n", new="        caches[0].flush()\n", expect='C17-ABORT.global-commit'),
